@@ -163,20 +163,8 @@ func c03Dynamic(r *ev.Rec) {
 				l.Sample(map[string]any{"case": c.String(), "limits": lim.name, "history": hist})
 			}
 		}
-		func() {
-			defer func() {
-				if p := recover(); p != nil {
-					if strings.Contains(fmt.Sprint(p), "replay diverged") {
-						// Go map iteration order inside the scheduler changed the shape of the pass between executions of the same
-						// case (DESIGN 2.6); the case is reported as not exhaustively explored, never as a verdict
-						l.Outcome("dynamic-case-not-replayable (map-order nondeterminism)")
-						return
-					}
-					panic(p)
-				}
-			}()
-			ex.Explore()
-		}()
+		ex.Explore()
+		noteDiverged(l, ex, "dynamic-case")
 		l.Transitions += int64(ex.Points)
 		if ex.Capped {
 			l.Outcome("dynamic-exploration-capped")
@@ -317,6 +305,7 @@ func c03Seam(r *ev.Rec) {
 			}
 		}
 		ex.Explore()
+		noteDiverged(l, ex, "prefix")
 	})
 }
 
@@ -611,6 +600,7 @@ func c03Protocol(r *ev.Rec) {
 			}
 		}
 		ex.Explore()
+		noteDiverged(l, ex, "prefix")
 		l.Transitions += int64(ex.Points)
 		if ex.Capped {
 			l.Outcome("protocol-exploration-capped")
